@@ -111,7 +111,7 @@ def check(ck):
     gets = [n for n in g.live_nodes() for c in node_calls(n) if dump(c.func) == "self._queue.get"]
     execs = [n for n in g.live_nodes() for c in node_calls(n) if isinstance(c.func, ast.Attribute) and c.func.attr == "execute"]
     dones = [n for n in g.live_nodes() for c in node_calls(n) if dump(c.func) == "self._queue.task_done"]
-    if len(gets) != 1 or len(execs) < 1 or len(dones) < 2:
+    if len(gets) != 1 or len(execs) < 1 or len(dones) < 1:
         raise AnalysisError("anchor vanished: get/execute/task_done in ThreadPool.__run (%d/%d/%d)" % (len(gets), len(execs), len(dones)))
     get_id = gets[0].id
     exec_ids = set(n.id for n in execs)
